@@ -108,11 +108,14 @@ def interface_sign(m, ifc, ids, fixed_tris):
     if abs(tot) < 1e-13: return 2       # the reader then draws random points until the angle is non-zero: not a function of the input
     return 0
 
-def inside_interface(m, ifc, p):
-    """geometric truth of Interface::contains(p): |winding| is 1 for a closed surface whatever its orientation"""
+def inside_interface(m, ifc, p, fixed=None):
+    """geometric truth of Interface::contains(p): |winding| is 1 for a closed surface whatever its orientation
+    (locally inconsistent meshes are made consistent first, as a surface has no insideness otherwise)"""
     tot = 0.0
     for s, k in ifc:
         name, vs, ts = m["meshes"][k]
+        if fixed is not None: ts = fixed[k]
+        elif not is_consistent(ts): ts = local_fix(ts)
         tot += s * mesh_solid_angle(p, vs, ts)
     return abs(tot) > 2 * math.pi
 
@@ -129,7 +132,7 @@ def abstract(m, probes=(), old=False):
     isign = [_isign(ifc) if ok else 0 for ifc, ok in zip(ifs, ok_if)]
     pw = [len(probes)]
     for p in probes:
-        pw += [1 if (ok and inside_interface(m, ifc, p)) else 0 for ifc, ok in zip(ifs, ok_if)]
+        pw += [1 if (ok and inside_interface(m, ifc, p, fixed)) else 0 for ifc, ok in zip(ifs, ok_if)]
     return dict(isign=isign, ifs=ifs, doms=doms, unstable=(2 in isign), probe_wire=pw)
 
 # ------------------------------------------------------------------ probes
